@@ -10,39 +10,57 @@ var simgoAssumptions = []string{
 var propCfgs = []*propCfg{
 	{
 		ID: "C18", Level: "exploration", SimEngine: "simgo",
-		Quick:    tierCfg{Seeds: 6000, Secs: 70, Batch: 100},
-		Thorough: tierCfg{Seeds: 400000, Secs: 900, Batch: 250},
-		Rule: "one evaluation = one seeded simulation of a generated 2..6-stage pipeline (producers, filters, early-exit consumers, throwers; value and byte payloads beyond the 32-slot channel and the per-run pipe capacity) under one seeded schedule; distinct = distinct interleaving signature (hash of (goroutine id, site) over all steps with more than one runnable goroutine); non-trivial = at least one step had a real scheduling choice",
-		Real: []string{"pkg/eval pipelineOp.exec, ports, valueOutput.Put, IterateInputs, linesToChan, PipePort/CapturePort, exception composition, builtins each/range/put/echo/take/drop/from-lines/to-lines/only-bytes/only-values/count/fail/nop, closures, fn", "Go runtime channels, WaitGroup, real kernel pipes"},
-		Stub: []string{"harness stages vsrc/vrelay/vsink/vfailafter (workload and recording only)"},
+		Quick:       tierCfg{Seeds: 6000, Secs: 70, Batch: 100},
+		Thorough:    tierCfg{Seeds: 400000, Secs: 900, Batch: 250},
+		Rule:        "one evaluation = one seeded simulation of a generated 2..6-stage pipeline (producers, filters, early-exit consumers, throwers; value and byte payloads beyond the 32-slot channel and the per-run pipe capacity) under one seeded schedule; distinct = distinct interleaving signature (hash of (goroutine id, site) over all steps with more than one runnable goroutine); non-trivial = at least one step had a real scheduling choice",
+		Real:        []string{"pkg/eval pipelineOp.exec, ports, valueOutput.Put, IterateInputs, linesToChan, PipePort/CapturePort, exception composition, builtins each/range/put/echo/take/drop/from-lines/to-lines/only-bytes/only-values/count/fail/nop, closures, fn", "Go runtime channels, WaitGroup, real kernel pipes"},
+		Stub:        []string{"harness stages vsrc/vrelay/vsink/vfailafter (workload and recording only)"},
 		Assumptions: simgoAssumptions,
 	},
 	{
 		ID: "C19", Level: "fault_enumeration", SimEngine: "simgo",
-		Quick:    tierCfg{Seeds: 400, Secs: 80, Batch: 10},
-		Thorough: tierCfg{Seeds: 40000, Secs: 900, Batch: 20},
-		Rule: "one evaluation = one corpus program (loops, recursion, pipelines, each, peach bounded/unbounded/direct Go callable, run-parallel, sleep, try/finally, capture, background job) with tape-chosen sizes, in one of three fault modes: enumerate (reference run, then one simulation per scheduler step k with the cancellation injected at k, under the non-preemptive schedule and seeded random ones; counted in sub_evaluations), synchronous in-program interrupt under a seeded schedule, one random-step interrupt under a seeded schedule; distinct = distinct combined interleaving+fault signature; non-trivial = an interrupt actually fired",
-		Real: []string{"pkg/eval: chunkOp/pipelineOp cancellation checks, peach (x/sync/semaphore), each, run-parallel, sleep (fake clock via real time.After), try/finally, output capture, background jobs, EvalCfg.Interrupts"},
-		Stub: []string{"signal delivery: the context is cancelled by the scheduler at a chosen step or by a harness builtin, instead of by SIGINT", "harness builtins vt/vw/vintr (tick, timed work item, synchronous interrupt)"},
+		Quick:       tierCfg{Seeds: 400, Secs: 80, Batch: 10},
+		Thorough:    tierCfg{Seeds: 40000, Secs: 900, Batch: 20},
+		Rule:        "one evaluation = one corpus program (loops, recursion, pipelines, each, peach bounded/unbounded/direct Go callable, run-parallel, sleep, try/finally, capture, background job) with tape-chosen sizes, in one of three fault modes: enumerate (reference run, then one simulation per scheduler step k with the cancellation injected at k, under the non-preemptive schedule and seeded random ones; counted in sub_evaluations), synchronous in-program interrupt under a seeded schedule, one random-step interrupt under a seeded schedule; distinct = distinct combined interleaving+fault signature; non-trivial = an interrupt actually fired",
+		Real:        []string{"pkg/eval: chunkOp/pipelineOp cancellation checks, peach (x/sync/semaphore), each, run-parallel, sleep (fake clock via real time.After), try/finally, output capture, background jobs, EvalCfg.Interrupts"},
+		Stub:        []string{"signal delivery: the context is cancelled by the scheduler at a chosen step or by a harness builtin, instead of by SIGINT", "harness builtins vt/vw/vintr (tick, timed work item, synchronous interrupt)"},
 		Assumptions: simgoAssumptions,
 	},
 	{
 		ID: "C20", Level: "exploration", SimEngine: "simgo",
-		Quick:    tierCfg{Seeds: 5000, Secs: 70, Batch: 100},
-		Thorough: tierCfg{Seeds: 400000, Secs: 900, Batch: 200},
-		Rule: "one evaluation = one generated case (peach with bound 1..8/+inf/big-int/default, Go-callable or closure callback, list or piped inputs of 0..12 (thorough 0..300) items; or run-parallel of 0..12 functions) with a tape-generated behaviour table per input (fake delay, value and byte outputs, outcome ok/continue/break/fail) under one seeded schedule; bound-1 cases are re-run with each on the same table (sub_evaluations counts simulations); distinct = distinct interleaving signature; non-trivial = at least one scheduling choice",
-		Real: []string{"pkg/eval peach, each, runParallel, x/sync/semaphore, value/byte output ports, exception aggregation (errutil.Multi, MakePipelineError)"},
-		Stub: []string{"harness callback vcb (behaviour table, start/end recording, fake-time delay)"},
+		Quick:       tierCfg{Seeds: 5000, Secs: 70, Batch: 100},
+		Thorough:    tierCfg{Seeds: 400000, Secs: 900, Batch: 200},
+		Rule:        "one evaluation = one generated case (peach with bound 1..8/+inf/big-int/default, Go-callable or closure callback, list or piped inputs of 0..12 (thorough 0..300) items; or run-parallel of 0..12 functions) with a tape-generated behaviour table per input (fake delay, value and byte outputs, outcome ok/continue/break/fail) under one seeded schedule; bound-1 cases are re-run with each on the same table (sub_evaluations counts simulations); distinct = distinct interleaving signature; non-trivial = at least one scheduling choice",
+		Real:        []string{"pkg/eval peach, each, runParallel, x/sync/semaphore, value/byte output ports, exception aggregation (errutil.Multi, MakePipelineError)"},
+		Stub:        []string{"harness callback vcb (behaviour table, start/end recording, fake-time delay)"},
 		Assumptions: simgoAssumptions,
 	},
 	{
 		ID: "C40", Level: "exploration", SimEngine: "simgo",
-		Quick:    tierCfg{Seeds: 1500, Secs: 70, Batch: 25},
-		Thorough: tierCfg{Seeds: 100000, Secs: 900, Batch: 50},
-		Rule: "one evaluation = one generated program (1..3 snippets: pipelines with early exit and failing stages, redirections > >> < <> to temp files, fd duplication/closing, output captures, peach, run-parallel, try/catch) evaluated 7 (thorough 21) times on one interpreter in one seeded simulation with the garbage collector off, optionally with a context cancellation at a tape-chosen step; after every evaluation /proc/self/fd (numbers and link targets) must equal the baseline taken after the first one, and at the end no goroutine may remain; distinct = distinct interleaving+fault signature; non-trivial = at least one scheduling choice",
-		Real: []string{"pkg/eval pipelineOp.exec, formOwnedPort.close, redirOp, PipePort/CapturePort/ValueCapturePort, IterateInputs, peach, run-parallel, exception paths, interrupts; real files and kernel pipes"},
-		Stub: []string{"signal delivery (context cancelled by the scheduler at a chosen step)"},
+		Quick:       tierCfg{Seeds: 1500, Secs: 70, Batch: 25},
+		Thorough:    tierCfg{Seeds: 100000, Secs: 900, Batch: 50},
+		Rule:        "one evaluation = one generated program (1..3 snippets: pipelines with early exit and failing stages, redirections > >> < <> to temp files, fd duplication/closing, output captures, peach, run-parallel, try/catch) evaluated 7 (thorough 21) times on one interpreter in one seeded simulation with the garbage collector off, optionally with a context cancellation at a tape-chosen step; after every evaluation /proc/self/fd (numbers and link targets) must equal the baseline taken after the first one, and at the end no goroutine may remain; distinct = distinct interleaving+fault signature; non-trivial = at least one scheduling choice",
+		Real:        []string{"pkg/eval pipelineOp.exec, formOwnedPort.close, redirOp, PipePort/CapturePort/ValueCapturePort, IterateInputs, peach, run-parallel, exception paths, interrupts; real files and kernel pipes"},
+		Stub:        []string{"signal delivery (context cancelled by the scheduler at a chosen step)"},
 		Assumptions: append([]string{"the garbage collector is disabled during a run so that os.File finalizers cannot close a leaked descriptor"}, simgoAssumptions...),
+	},
+	{
+		ID: "C24", Level: "exploration",
+		Quick:       tierCfg{Seeds: 4000, Secs: 60, Batch: 100},
+		Thorough:    tierCfg{Seeds: 150000, Secs: 600, Batch: 200},
+		Rule:        "one evaluation = one generated operation history (<= 60, thorough <= 300 operations: add with shared-prefix, empty and binary texts; delete of present and absent numbers; get; next sequence; range listing with bounds below/inside/above and unbounded; next/previous search with prefixes; directory visit with factors, directory delete, listing with blacklist) run on a fresh database against the sequential model, then closed, reopened and compared again; this is the fault-free configuration of the store simulation (C25 is the crash configuration); distinct = distinct history; non-trivial = every history (at least one operation)",
+		Real:        []string{"pkg/store (NewStore, cmd.go, dir.go), go.etcd.io/bbolt v1.3.10, the real file system (tmpfs)"},
+		Stub:        []string{},
+		Assumptions: []string{"operations are issued sequentially by one client (concurrent clients are C26)", "directory scores are compared with a relative tolerance that grows with the number of visits because the store keeps 7 significant digits", "negative bounds other than upto=-1 (unbounded) are not generated: no caller passes them"},
+	},
+	{
+		ID: "C25", Level: "fault_enumeration",
+		Quick:       tierCfg{Seeds: 600, Secs: 70, Batch: 10},
+		Thorough:    tierCfg{Seeds: 40000, Secs: 900, Batch: 20},
+		Rule:        "one evaluation = one generated mutation-heavy history (<= 14, thorough <= 40 operations) run once with every pwrite/truncate of bbolt logged through the simulated-disk seam; then EVERY crash image of that run is materialised and reopened with the real store: the file right after each logged event (including database creation and the opening transaction) and every page-aligned tear of each multi-page write (sub_evaluations = images); each image must open, equal the model after all acknowledged operations (the one in flight all-or-nothing), and hand out a larger sequence number; a tape-chosen sixth of the images is continued with the rest of the history, and (thorough) the continuation's crash images are enumerated again; distinct = distinct history; exhaustive over crash points of each history, sampled over histories",
+		Real:        []string{"pkg/store, go.etcd.io/bbolt v1.3.10 (scratch copy with a two-line seam routing db.ops.writeAt and db.file.Truncate through a recorder), real files on tmpfs, real flock/mmap"},
+		Stub:        []string{"the crash: instead of SIGKILL, the file image a kill would leave is rebuilt from the write log (checked on every run to reproduce the real file byte for byte)"},
+		Assumptions: []string{"a killed process loses nothing that a completed pwrite put into the page cache (process kill, not power loss)", "a pwrite interrupted by SIGKILL leaves a page-aligned prefix of its data", "bbolt mutates the database file only through db.ops.writeAt and db.file.Truncate (self-checked: the log must reproduce the file)"},
 	},
 }
 
